@@ -40,8 +40,9 @@ func (s *Server) Definition(ctx context.Context, params *protocol.DefinitionPara
 		return nil, nil
 	}
 
-	resolved := s.getWorkspaceResolved(params.TextDocument.URI)
-	currentPath := uriToPath(params.TextDocument.URI)
+	// the primary journal of the tree is the workspace's root journal, not necessarily the
+	// document the request comes from
+	resolved, currentPath := s.getWorkspaceResolvedWithPath(params.TextDocument.URI)
 
 	location := findDefinitionLocation(target, resolved, currentPath, journal)
 	if location == nil {
